@@ -568,7 +568,7 @@ func poolDiscipline(c *Ctx, rule string) {
 				obj := info.ObjectOf(id)
 				dominated := false
 				for _, r := range methodCallsOn(info, pt.fd.Body, obj, "Reset") {
-					if fc.dominates(r, pt.call) {
+					if fc.happensBefore(r, pt.call) {
 						dominated = true
 					}
 				}
@@ -600,7 +600,7 @@ func poolDiscipline(c *Ctx, rule string) {
 				fc := newFnCFG(pt.fd.Body, info)
 				flushed := false
 				for _, fl := range methodCallsOn(info, pt.fd.Body, obj, "Flush") {
-					if fc.dominates(fl, pt.call) {
+					if fc.happensBefore(fl, pt.call) {
 						flushed = true
 					}
 				}
